@@ -158,6 +158,14 @@ for _xs in ('linear', 'log'):
 for _sc in ('linear', 'log', 'logicle'):
     CALLS['io.FCSData.hist_bins(%s,transformed)' % _sc] = ((lambda sc: (lambda s, a: a['tsample'].hist_bins(a['tsample'].channels[2], 16, sc)))(_sc), True, False)
 CALLS['io.FCSData.range(transformed)'] = (lambda s, a: a['tsample'].range(), True, False)
+# the standard-curve plot with axis limits handed over as lists: the sample's own range list, and a list owned by the caller
+for _xs in ('linear', 'log'):
+    CALLS['mef.plot_standard_curve(%s,xlim=range)' % _xs] = (_plot((lambda xs: (lambda s, a: FlowCal.mef.plot_standard_curve(
+        a['fl_rfi'], a['fl_mef'], lambda x: 3.0 * np.asarray(x, dtype=float) ** 1.1 - 20.0, lambda x: 3.0 * np.asarray(x, dtype=float) ** 1.1,
+        xscale=xs, yscale='log', xlim=s.range(2))))(_xs)), True, False)
+    CALLS['mef.plot_standard_curve(%s,xlim=list)' % _xs] = (_plot((lambda xs: (lambda s, a: FlowCal.mef.plot_standard_curve(
+        a['fl_rfi'], a['fl_mef'], lambda x: 3.0 * np.asarray(x, dtype=float) ** 1.1 - 20.0, lambda x: 3.0 * np.asarray(x, dtype=float) ** 1.1,
+        xscale=xs, yscale='log', xlim=a['xlim'], ylim=a['ylim'])))(_xs)), True, False)
 CALLS['plot.density_and_hist'] = (_plot(lambda s, a: FlowCal.plot.density_and_hist(s + 1, gated_data=(s + 1)[2:], density_channels=a['chs2'], hist_channels=a['chs'], density_params=a['dparams'], hist_params=a['hparams'])), True, False)
 
 
@@ -175,7 +183,7 @@ def build_args(s, rng, floaty):
         'vpops': [FlowCal.transform.to_rfi(s[i * third:(i + 1) * third]) for i in range(3)],
         'vpops_1d': [np.asarray(s[i * third:(i + 1) * third, 2], dtype=np.float64) + 1.0 for i in range(3)],
         'tsample': FlowCal.transform.transform(s, [names[2], names[0]], np.sqrt if not floaty else (lambda x: np.sqrt(np.abs(np.asarray(x, dtype=float))))),
-        'nbins': [8, None], 'scales': ['linear', 'log'], 'plain': np.array(np.asarray(s), dtype=np.float64 if floaty else np.asarray(s).dtype),
+        'xlim': [0.0, 1023.0], 'ylim': [1.0, 1e8], 'nbins': [8, None], 'scales': ['linear', 'log'], 'plain': np.array(np.asarray(s), dtype=np.float64 if floaty else np.asarray(s).dtype),
         'chs': [names[2], 0], 'chs2': [names[0], names[1]], 'at': [(0, 0), None], 'ag': [None, 2.0], 'res': [None, 1024],
         'sc_list': [lambda x: 2.0 * x + 1, lambda x: 3.0 * x], 'high': [900., 800.], 'low': [1., 2.],
         'center': [400., 300.], 'bins2': [8, 6], 'edges2': [np.linspace(-1, 1100, 9), np.linspace(-1, 1100, 7)],
@@ -234,6 +242,9 @@ class Prop(common.PropertyCheck):
             for sl in ('1:3', '::-1', '2:', 'list', 'mask+1:'):
                 for kind in ('int', 'float'):
                     yield {'k': 'derived', 'q1': q1, 'sl': sl, 'data': kind}
+        # a file handed over as an open file object stays the caller's: still open, and good for a second load
+        for kind in ('int', 'float'):
+            yield {'k': 'fileobj', 'data': kind}
         # answers in this process (after queries on an almost identical sample) equal the answers of a fresh interpreter
         for i, delta in enumerate([2e-4, 1e-3, 0.0, 7e-5][:self.budget(3, 4)]):
             yield {'k': 'xproc', 'delta': delta, 'first': ['hist_bins', 'transform', 'hist_bins', 'density'][i], 'seed': 11 + i}
@@ -324,6 +335,21 @@ def queries(path):
             return self.run_history(case)
         if case['k'] == 'xproc':
             return self.run_xproc(case)
+        if case['k'] == 'fileobj':
+            s0 = self.sample(case['data'], 0)
+            path = os.path.join(fcsgen.tmpdir(), 'c13_%s.fcs' % case['data'])
+            f = open(path, 'rb')
+            try:
+                a1 = FlowCal.io.FCSData(f)
+                closed1 = f.closed
+                a2 = FlowCal.io.FCSData(f) if not closed1 else None
+                f3 = FlowCal.io.FCSFile(f) if not f.closed else None
+                return {'closed_after_load': bool(closed1), 'closed_after_all': bool(f.closed),
+                        'same': a2 is not None and fpm.sample_fp(a1)['array'] == fpm.sample_fp(a2)['array'] and fpm.sample_fp(a1)['array'] == fpm.sample_fp(s0)['array']}
+            except Exception as e:
+                return {'err': type(e).__name__ + ':' + str(e)[:80]}
+            finally:
+                f.close()
         if case['k'] == 'derived':
             return self.run_derived(case)
         s = self.sample(case['data'], 0)
@@ -556,6 +582,8 @@ def queries(path):
             self.bump('call-raised')
             if case['k'] == 'xproc':
                 return 'queries on a float sample with one negative event raised %s' % impl['err']
+            if case['k'] == 'fileobj':
+                return 'loading twice from one open file object raised %s' % impl['err']
             if case['k'] == 'call':
                 return 'call %s on %s data raised %s' % (case['call'], case['data'], impl['err'])
             if case['k'] == 'derived':
@@ -577,6 +605,12 @@ def queries(path):
                 return 'result of %s shares the event buffer with its input' % c
             if not impl['sample_same_after_result_edit']:
                 return 'editing the metadata of the result of %s changed the input' % c
+            return None
+        if case['k'] == 'fileobj':
+            if impl['closed_after_load'] or impl['closed_after_all']:
+                return 'loading from an open file object closed the caller\'s file object'
+            if not impl['same']:
+                return 'a second load from the same open file object does not give the same events'
             return None
         if case['k'] == 'xproc':
             if impl['diff']:
@@ -630,4 +664,6 @@ def queries(path):
             return ('derived', case['q1'], case['sl'], case['data'])
         if case['k'] == 'xproc':
             return ('xproc', case['delta'])
+        if case['k'] == 'fileobj':
+            return ('fileobj', case['data'])
         return ('hist', tuple(o['t'] + o.get('how', '') for o in case['ops']))
